@@ -703,23 +703,29 @@ class Object(base.Symbolic, metaclass=ObjectMeta):
             f'{self.__class__.__name__}.__init__() missing {len(missing_args)} '
             f'required {arg_phrase}: {keys_str}.')
 
-    self._set_raw_attr(
-        '_sym_attributes',
-        pg_dict.Dict(
-            field_args,
-            value_spec=self.__class__.sym_fields,
-            allow_partial=allow_partial,
-            sealed=sealed,
-            # NOTE(daiyip): Accessor writable is honored by
-            # `Object.__setattr__` thus we could always make `_sym_attributes`
-            # accessor writable. This prevents a child object's attribute access
-            # from being changed when it's attached to a parent whose symbolic
-            # attributes could not be directly written.
-            accessor_writable=True,
-            root_path=root_path,
-            as_object_attributes_container=True,
-        ),
-    )
+    try:
+      sym_attributes = pg_dict.Dict(
+          field_args,
+          value_spec=self.__class__.sym_fields,
+          allow_partial=allow_partial,
+          sealed=sealed,
+          # NOTE(daiyip): Accessor writable is honored by
+          # `Object.__setattr__` thus we could always make `_sym_attributes`
+          # accessor writable. This prevents a child object's attribute access
+          # from being changed when it's attached to a parent whose symbolic
+          # attributes could not be directly written.
+          accessor_writable=True,
+          root_path=root_path,
+          as_object_attributes_container=True,
+      )
+    except BaseException:
+      # The arguments accepted before the refused one are stored nowhere: they
+      # are the roots of their own trees again.
+      for v in field_args.values():
+        if isinstance(v, base.Symbolic) and v.sym_parent is None:
+          v.sym_setpath(utils.KeyPath())
+      raise
+    self._set_raw_attr('_sym_attributes', sym_attributes)
     self._sym_attributes.sym_setparent(self)
     self._on_init()
     self.seal(sealed)
